@@ -973,6 +973,16 @@ def _run_http_producer_turn(
         except Exception:
             write_sink = resp_buf
     max_bytes = app._max_response_bytes
+
+    def _body_bytes() -> int:
+        # Position of the IPC writer's own sink.  With a codec in between,
+        # ``resp_buf.tell()`` only moves when the compressor flushes a full
+        # internal buffer (~64 KiB), so the cap would not be seen for many
+        # batches; the uncompressed position is a tight upper bound of what
+        # will land on the wire and chunks the turn exactly like the
+        # uncompressed path.
+        return int(write_sink.tell())
+
     max_external_bytes = app._max_externalized_response_bytes
     externalization_enabled = (
         app._server.external_config is not None and app._server.external_config.storage is not None
@@ -1022,7 +1032,7 @@ def _run_http_producer_turn(
         try:
             while True:
                 # Snapshot the budgets remaining at the start of this iteration.
-                remaining_wire = None if max_bytes is None else max(0, max_bytes - resp_buf.tell())
+                remaining_wire = None if max_bytes is None else max(0, max_bytes - _body_bytes())
                 remaining_external = (
                     None
                     if max_external_bytes is None or not externalization_enabled
@@ -1083,7 +1093,7 @@ def _run_http_producer_turn(
                 # break after every produce cycle so the client receives
                 # data incrementally.  When ``max_bytes`` is configured,
                 # buffer multiple batches until the HTTP body fills the cap.
-                should_continue = max_bytes is not None and resp_buf.tell() < max_bytes
+                should_continue = max_bytes is not None and _body_bytes() < max_bytes
                 if not should_continue:
                     # Serialize the cursor into a continuation token.  Only the
                     # cursor: the call token was minted at /init and either the
